@@ -368,7 +368,7 @@ type problem struct {
 }
 
 // judge compares everything observed for one accepted case with the expectation.
-func judge(c *Case, e Expect, res *Result, cr *caseRes, evs []destEvent, polluted map[netip.AddrPort]bool) (probs []problem, matched int) {
+func judge(c *Case, e Expect, res *Result, cr *caseRes, evs []destEvent, polluted map[netip.AddrPort]bool, visited bool) (probs []problem, matched int) {
 	o := &cr.obs
 	add := func(class, form, format string, a ...any) {
 		probs = append(probs, problem{class, form, fmt.Sprintf(format, a...)})
@@ -499,7 +499,7 @@ func judge(c *Case, e Expect, res *Result, cr *caseRes, evs []destEvent, pollute
 	}
 
 	// (5) TLS server name
-	if len(foreignDests(c, e, cr, evs)) > 0 || (c.Via != "socks5" && e.Reachable && polluted[e.Listen]) {
+	if visited || len(foreignDests(c, e, cr, evs)) > 0 || (c.Via != "socks5" && e.Reachable && polluted[e.Listen]) {
 		// this case talked to somebody else's listener, or another case's
 		// misdirected connection arrived at this case's listener (that other case is
 		// reported with a dest-* key): names seen here prove nothing about this case
@@ -654,7 +654,9 @@ func main() {
 	rep.SetRule("cases = seed-determined list over {udp,tcp,tcp+pipeline,tls,tls+pipeline,https,h3,quic,no scheme} x 16 host forms " +
 		"(IPv4 loopback/doc, bracketed IPv6 compressed/full/zero-run at start/end/v4-mapped/upper-case, bare IPv6, hostname) x " +
 		"{no port,1,53,443,853,65535,random} x {no dial_addr, IP, IP:port, bare IPv6, [IPv6]:port, host, host:port} x {path,none} x {direct, SOCKS5, bootstrap v4/v6}; " +
-		"scheme x host form cycled systematically, rest drawn from the PRNG. A case is non-trivial when NewUpstream accepted it and at least one " +
+		"scheme x host form cycled systematically, rest drawn from the PRNG; every 7th case carries a port that cannot be honoured " +
+		"(65536, 65589, 66389, 70000, 99999, 2^32+53, 2^64+53, empty, non-numeric in the url or dial_addr, negative in dial_addr) and must be rejected. A case is non-trivial when " +
+		"it must be rejected and NewUpstream's verdict was observed, or when NewUpstream accepted it and at least one " +
 		"destination it produced was positively observed (traced sockaddr on a socket carrying the case's SO_MARK, SOCKS5 CONNECT, bootstrap question) and compared; " +
 		"distinct = distinct (addr, dial_addr, proxy/bootstrap mode) inputs")
 	rep.Assume("strace reports the sockaddr arguments of connect/sendto/sendmsg/sendmmsg faithfully; SO_MARK set through Opt.SoMark labels every socket mosdns opens for a case")
@@ -789,6 +791,39 @@ func evaluate(p *parent, tr *traceResult) {
 		}
 	}
 	rep.Count("loopback_addresses_hit_by_misdirected_connections", int64(len(polluted)))
+	// connections of OTHER cases that arrived at a case's listen address while its
+	// listeners could exist - e.g. a DoH request keeps running (and redialing) for
+	// up to 6 s after Close and then meets the next case listening on [::1]:853
+	byTarget := map[netip.AddrPort][]destEvent{}
+	for _, ev := range tr.Events {
+		if t, ok := localTarget(ev.Dest); ok {
+			byTarget[t] = append(byTarget[t], ev)
+		}
+	}
+	visited := map[int]bool{}
+	for _, c := range cases {
+		cr := p.finished[c.ID]
+		if cr == nil || c.Via == "socks5" || !cr.exp.Reachable {
+			continue
+		}
+		open, okO := tr.Open[c.ID]
+		shut, okS := tr.Shut[c.ID]
+		if !okO || !okS {
+			continue
+		}
+		for _, ev := range byTarget[cr.exp.Listen] {
+			if ev.Mark != c.ID+1 && ev.Line >= open && ev.Line <= shut {
+				visited[c.ID] = true
+				if ev.Mark > 0 && ev.Mark-1 < len(cases) {
+					v := cases[ev.Mark-1]
+					late := ev.Line > tr.Ends[v.ID] && tr.Ends[v.ID] > 0
+					rep.SetAdd("visitors", fmt.Sprintf("%q dial_addr %q -> %s (after its own END marker: %v)", v.Addr, v.DialAddr, ev.Dest, late))
+				}
+				break
+			}
+		}
+	}
+	rep.Count("cases_visited_by_another_cases_connection", int64(len(visited)))
 
 	accepted, rejected, nontrivial := 0, 0, 0
 	sampled := map[string]bool{}
@@ -813,6 +848,46 @@ func evaluate(p *parent, tr *traceResult) {
 		if cr.listenErr != "" {
 			rep.Count("harness_listen_failures", 1)
 			rep.SetAdd("listen_errors", cr.listenErr)
+		}
+		if c.unhonourable() {
+			// the only allowed outcome is rejection by NewUpstream
+			what := c.BadWhere + "-" + c.BadKind
+			if res.NewErr != "" {
+				rejected++
+				rep.Count("unhonourable_address_rejected", 1)
+				rep.SetAdd("unhonourable_classes_rejected", sn+" "+what+" "+c.hostKey())
+				rep.Nontrivial(c.Addr + "|" + c.DialAddr + "|" + c.Via + "|" + strconv.Itoa(c.BootVer))
+				nontrivial++
+				if !sampled["unhonourable"] && rep.WantSample() {
+					sampled["unhonourable"] = true
+					rep.Sample(witness{Case: c, Expected: map[string]any{"must_be_rejected": true}, Result: res, Observed: &cr.obs})
+				}
+				continue
+			}
+			accepted++
+			rep.Count("unhonourable_address_accepted", 1)
+			evs := byCase[c.ID]
+			var went []string
+			for _, ev := range evs {
+				if s := fmt.Sprintf("%s(%s) -> %s", ev.Syscall, ev.Sock, ev.Dest); len(went) < 6 && !containsStr(went, s) {
+					went = append(went, s)
+				}
+			}
+			for _, so := range cr.obs.Socks {
+				if s := fmt.Sprintf("SOCKS5 CONNECT %s port %d", so.Host, so.Port); len(went) < 6 && !containsStr(went, s) {
+					went = append(went, s)
+				}
+			}
+			if len(evs) > 12 {
+				evs = evs[:12]
+			}
+			w := witness{Case: c, Expected: map[string]any{"must_be_rejected": true, "bootstrap_server": cr.bootAddr, "socks5_proxy": cr.socksAddr},
+				Result: res, Observed: &cr.obs, Trace: evs,
+				Problems: []string{fmt.Sprintf("port %q written in %s cannot be honoured, yet NewUpstream accepted the address; traffic went to %v", c.BadPort, c.BadWhere, went)}}
+			rep.Violation("accepted-although-unhonourable-"+sn+"-"+what,
+				fmt.Sprintf("addr %q dial_addr %q: the port %q (%s) cannot be honoured but NewUpstream accepted the address; observed destinations: %v (exchange: ok=%v err=%q)",
+					c.Addr, c.DialAddr, c.BadPort, c.BadWhere, went, res.ReplyOK, res.ExchErr), w)
+			continue
 		}
 		if res.NewErr != "" {
 			rejected++
@@ -845,7 +920,7 @@ func evaluate(p *parent, tr *traceResult) {
 			rep.SetAdd("reachable_unanswered_errors", trunc(res.ExchErr, 90))
 			rep.SetAdd("reachable_unanswered_cases", fmt.Sprintf("%s dial=%q via=%s tc=%v: %s", c.Addr, c.DialAddr, c.Via, c.TC, trunc(res.ExchErr, 60)))
 		}
-		probs, matched := judge(c, e, res, cr, byCase[c.ID], polluted)
+		probs, matched := judge(c, e, res, cr, byCase[c.ID], polluted, visited[c.ID])
 		evs := byCase[c.ID]
 		if len(evs) > 12 {
 			evs = evs[:12]
@@ -886,7 +961,7 @@ func evaluate(p *parent, tr *traceResult) {
 	if rep.ReplayFile == "" {
 		need := []string{"strace_inet_destinations", "trace_dest_attributed_by_so_mark", "socks5_connects", "bootstrap_questions",
 			"listener_udp_datagrams", "listener_tcp_accepts", "listener_tls_clienthellos", "listener_quic_clienthellos",
-			"listener_http_requests", "handshake_ok_ip_san_only", "handshake_ok_dns_san_only", "clienthello_sni_equals_expected"}
+			"listener_http_requests", "unhonourable_address_rejected", "handshake_ok_ip_san_only", "handshake_ok_dns_san_only", "clienthello_sni_equals_expected"}
 		sort.Strings(need)
 		for _, k := range need {
 			if rep.Get(k) == 0 {
@@ -911,6 +986,15 @@ func evaluate(p *parent, tr *traceResult) {
 	} else if len(p.results) == 0 {
 		rep.Inconclusive("replayed case was not executed")
 	}
+}
+
+func containsStr(l []string, s string) bool {
+	for _, x := range l {
+		if x == s {
+			return true
+		}
+	}
+	return false
 }
 
 func trunc(s string, n int) string {
